@@ -208,10 +208,12 @@ def arc_length_sampled(c, scipy):
         tm = 0.5 * (t0 + t1)
         c.ensures('additive', abs(arc.length(t0, tm) + arc.length(tm, t1) - L) <= 1e-6 * max(L, 1e-9) + 1e-9 * sc)
         # the arc was new and has only been asked for parts so far: the whole length now, and again
-        whole = arc.length()
-        chw = sum(abs(arc.point((k + 1) / float(N)) - arc.point(k / float(N))) for k in range(N))
-        c.ensures('whole-length-after-partial-queries', abs(whole - chw) <= 1e-4 * max(chw, 1e-9) + 1e-9 * sc)
-        if scipy:          # (the chord recursion is slow: the repeated queries only with the quadrature)
+        # (only with the quadrature: the chord recursion is slow, and the thorough tier's 600 samples
+        # must fit into its time limit)
+        if scipy:
+            whole = arc.length()
+            chw = sum(abs(arc.point((k + 1) / float(N)) - arc.point(k / float(N))) for k in range(N))
+            c.ensures('whole-length-after-partial-queries', abs(whole - chw) <= 1e-4 * max(chw, 1e-9) + 1e-9 * sc)
             c.ensures('whole-length-asked-twice', abs(arc.length() - whole) <= 1e-9 * max(whole, 1e-9))
             c.ensures('partial-length-after-the-whole', abs(arc.length(t0, t1) - L) <= 1e-9 * max(L, 1e-9) + 1e-12 * sc)
     finally:
